@@ -254,6 +254,7 @@ impl RelocatableContainer for RelocatableString {
 
         unsafe {
             self.data_ptr.init(ptr);
+            self.data_ptr.as_mut_ptr().write(MaybeUninit::new(0));
         }
         Ok(())
     }
